@@ -126,10 +126,10 @@ func VerifC18FilesystemStep() {
 	}
 
 	// ---- one event ----
-	ops := []fsnotify.Op{fsnotify.Create, fsnotify.Write, fsnotify.Chmod, fsnotify.Remove, fsnotify.Write | fsnotify.Chmod}
+	ops := []fsnotify.Op{fsnotify.Create, fsnotify.Write, fsnotify.Chmod, fsnotify.Remove, fsnotify.Write | fsnotify.Chmod, fsnotify.Rename}
 	op := ops[verifapi.NondetChoice("event", len(ops))]
-	if op.Has(fsnotify.Remove) {
-		// a remove notification is only delivered for a file that is gone
+	if op.Has(fsnotify.Remove) || op.Has(fsnotify.Rename) {
+		// a remove / rename notification is delivered for the (old) name of a file that is gone from it
 		if outcome != voGone {
 			return
 		}
